@@ -1,6 +1,7 @@
 from propcfg.common import COMMON_ASSUME
 
 CFG = {
+    "gen_items": ['Tables/behIdx', 'Tables/writeSuffix', 'Tables/readSuffixTable', 'Tables/readNoExtension'],
     "bin": "c01",
     "technique": "Lean 4 proof (step theorem for every store state + invariant, lifted to every history by induction) + differential correspondence",
     "level_text": "Theorems: for every state of the layers directory satisfying the reachable-state invariant and every operation, the model of "
